@@ -126,6 +126,21 @@ static void mode_pitch(void){
 
 /* ---------------------------------------------------------------- hook (H2) */
 static long hook_frames=0; static int hook_bad=0;
+/* shadow of the interpolation reference: for every live SILK decoder state the monitor remembers the last quantised NLSF vector it was shown.
+   (a) a frame that follows a frame of another LPC order (internal rate change) -- whatever concealment happened in between -- must not be
+       interpolated with the old vector: both half-frame filters are the same;
+   (b) a frame that is interpolated (factor < 4, no loss pending) must carry as first-half filter exactly silk_NLSF2A of the interpolation between the
+       remembered vector and the new one */
+#define SH_N 8
+static struct { const void *d; int order; opus_int16 nlsf[16]; int valid; } sh_tab[SH_N];
+static void sh_reset(void){ memset(sh_tab,0,sizeof sh_tab); }
+static void sh_check(const silk_decoder_state *d,const silk_decoder_control *c,const opus_int16 *nlsf,const char *ctx){ int j=-1; for(int i=0;i<SH_N;i++) if(sh_tab[i].d==d){ j=i; break; } if(j<0){ for(int i=0;i<SH_N;i++) if(!sh_tab[i].d){ j=i; break; } if(j<0) return; sh_tab[j].d=d; sh_tab[j].valid=0; }
+  int L=d->LPC_order; int same=!memcmp(c->PredCoef_Q12[0],c->PredCoef_Q12[1],sizeof(opus_int16)*L);
+  if(sh_tab[j].valid&&sh_tab[j].order!=L){ vc_count("hook_frames_after_order_change",1); if(!same){ vc_viol("hook:interpolation-across-rate-change","%s: the previous decoded frame of this state had LPC order %d, this one %d, yet the first-half filter differs from the second-half filter (interpolation factor %d; a vector of another codebook was used as reference)",ctx,sh_tab[j].order,L,d->indices.NLSFInterpCoef_Q2); hook_bad=1; } }
+  else if(sh_tab[j].valid&&d->indices.NLSFInterpCoef_Q2<4&&!d->first_frame_after_reset&&!d->lossCnt){ opus_int16 ip[16], a[16]; for(int i=0;i<L;i++) ip[i]=(opus_int16)(sh_tab[j].nlsf[i]+(((opus_int32)d->indices.NLSFInterpCoef_Q2*((opus_int32)nlsf[i]-sh_tab[j].nlsf[i]))>>2)); int ordered=1; for(int i=1;i<L;i++) if(ip[i]<=ip[i-1]) ordered=0; if(ip[0]<=0) ordered=0;
+    if(!ordered){ vc_viol("hook:interpolated-nlsf-not-ordered","%s: interpolation factor %d between the previous and the current vector is not strictly increasing",ctx,d->indices.NLSFInterpCoef_Q2); hook_bad=1; }
+    else { silk_NLSF2A(a,ip,L,d->arch); if(memcmp(a,c->PredCoef_Q12[0],sizeof(opus_int16)*L)){ vc_viol("hook:interpolated-filter-differs","%s: the first-half filter is not the one derived from the interpolation (factor %d) between the previous frame's vector and this frame's",ctx,d->indices.NLSFInterpCoef_Q2); hook_bad=1; } else vc_count("hook_interpolations_recomputed",1); } }
+  sh_tab[j].order=L; memcpy(sh_tab[j].nlsf,nlsf,sizeof(opus_int16)*L); sh_tab[j].valid=1; }
 static void params_cb(const silk_decoder_state *d,const silk_decoder_control *c,const opus_int16 *nlsf){ hook_frames++; if(hook_bad) return; char ctx[100]; snprintf(ctx,sizeof ctx,"live decoder (fs=%d kHz, nb_subfr=%d, order=%d, lossCnt=%d)",d->fs_kHz,d->nb_subfr,d->LPC_order,d->lossCnt);
   if(d->LPC_order!=10&&d->LPC_order!=16){ vc_viol("hook:lpc-order","%s",ctx); hook_bad=1; return; }
   if(check_nlsf(nlsf,d->psNLSF_CB,ctx)){ hook_bad=1; return; }
@@ -134,12 +149,15 @@ static void params_cb(const silk_decoder_state *d,const silk_decoder_control *c,
   static opus_int32 Glo=0,Ghi=0; if(!Glo){ opus_int8 i0[4]={0,0,0,0}, i63[4]={63,0,0,0}, pv=0; opus_int32 g[4]; silk_gains_dequant(g,i0,&pv,0,1); Glo=g[0]; pv=63; silk_gains_dequant(g,i63,&pv,0,1); Ghi=g[0]; }
   for(int k=0;k<d->nb_subfr;k++){ if(c->Gains_Q16[k]<Glo||c->Gains_Q16[k]>Ghi){ vc_viol("hook:gain-range","%s: Gains_Q16[%d]=%d",ctx,k,c->Gains_Q16[k]); hook_bad=1; return; } }
   if(d->indices.signalType==TYPE_VOICED){ for(int k=0;k<d->nb_subfr;k++) if(c->pitchL[k]<2*d->fs_kHz||c->pitchL[k]>18*d->fs_kHz){ vc_viol("hook:pitch-range","%s: pitchL[%d]=%d",ctx,k,c->pitchL[k]); hook_bad=1; return; } vc_count("hook_voiced_frames",1); }
-  if(d->lossCnt) vc_count("hook_frames_after_loss",1); if(d->indices.NLSFInterpCoef_Q2<4) vc_count("hook_interpolated_frames",1); }
+  if(d->lossCnt) vc_count("hook_frames_after_loss",1); if(d->indices.NLSFInterpCoef_Q2<4) vc_count("hook_interpolated_frames",1); sh_check(d,c,nlsf,ctx); }
 static void mode_hook(void){
   if(!&opus_verif_silk_params_cb){ fprintf(stderr,"hook H2 (opus_verif_silk_params_cb) is missing from this tree\n"); exit(3); }
-  opus_verif_silk_params_cb=params_cb; vk_pool_init(); vc_rng r; vc_case_rng(&r,21); int err; static float out[5760*2]; static unsigned char hb[2200];
+  opus_verif_silk_params_cb=params_cb; sh_reset(); vk_pool_init(); vc_rng r; vc_case_rng(&r,21); int err; static float out[5760*2]; static unsigned char hb[2200];
   int Fs=VC_PICK(&r,vk_rates), ch=1+vc_below(&r,2); OpusDecoder *d=opus_decoder_create(Fs,ch,&err); long before=hook_frames;
-  for(int t=0;t<40;t++){ int kind=vc_below(&r,6); int len; const unsigned char *p;
+  for(int t=0;t<40;t++){ int kind=vc_below(&r,7); int len; const unsigned char *p;
+    if(kind==6){ /* the usual recovery sequence at a stream (and often internal-rate) change: packet k-1 lost, recovered by an FEC call on packet k, then k, k+1 decoded */
+      vk_stream *st=&vk_pool[vc_below(&r,vk_pool_n)]; if(st->n<3) continue; int k=vc_below(&r,st->n-2); int fsz=opus_packet_get_nb_samples(st->pkt[k],st->len[k],Fs); if(fsz<=0) continue;
+      if(vc_chance(&r,1,2)) opus_decode_float(d,st->pkt[k],st->len[k],out,fsz,1); else opus_decode_float(d,NULL,0,out,fsz,0); for(int q=0;q<2&&!hook_bad;q++) opus_decode_float(d,st->pkt[k+q],st->len[k+q],out,5760,0); vc_count("hook_recovery_sequences",1); if(hook_bad) break; continue; }
     if(kind<2){ vk_stream *st=&vk_pool[vc_below(&r,vk_pool_n)]; int k=vc_below(&r,st->n); memcpy(hb,st->pkt[k],st->len[k]); len=st->len[k]; if(kind==1) len=vk_mutate(&r,hb,len,2000); p=hb; }
     else if(kind==2){ p=NULL; len=0; }
     else { len=vk_hostile(&r,hb,1500,0); if(len>0) hb[0]=(unsigned char)((vc_below(&r,16)<<3)|(hb[0]&7)); /* SILK / hybrid configurations */ p=hb; }
